@@ -209,6 +209,14 @@ def replay(name, s1, s2):
                 ya, la = A(x)
                 yb, lb = Bm(x)
                 worst = max(float((ya - yb).abs().max()), float((la - lb).abs().max()))
+                try:
+                    # the inverse direction on the same values (ya lies in the range of A)
+                    xa, lia = A.inverse(ya)
+                    xb, lib = Bm.inverse(ya)
+                    res["inverse_difference"] = max(float((xa - xb).abs().max()), float((lia - lib).abs().max()))
+                    worst = max(worst, res["inverse_difference"])
+                except Exception as e:  # noqa  (transforms without an inverse)
+                    res["inverse_skipped"] = "%s: %s" % (type(e).__name__, e)
         res["max_difference"] = worst
         res["reproduced"] = worst > 0
     except Exception as e:  # noqa
